@@ -264,6 +264,109 @@ func c08Batch(env *SymEnv, k int) {
 		}
 		return out
 	})
+	// shape: a transcript whose number of commitments / responses differs from the number of
+	// composed statements is refused with an error
+	{
+		pfx := fmt.Sprintf("C08.sigand[k=%d]", k)
+		e := fitChal(chal(0), and.GetChallengeBytesLength())
+		a, st, err := and.ComputeProverCommitment(ax, aw)
+		if env.Check(pfx+"/shape: commit-ok", err == nil, fmt.Sprint(err)) {
+			if z, err := and.ComputeProverResponse(ax, aw, a, st, e); env.Check(pfx+"/shape: response-ok", err == nil, fmt.Sprint(err)) {
+				extraZ := append(append(sigand.Response[*schnorrpok.Response[sF]](nil), z...), z[0])
+				env.Check(pfx+"/transcript with an extra response is rejected", noPanicErr(func() error { return and.Verify(ax, a, e, extraZ) }) != nil, "accepted k+1 responses")
+				extraA := append(append(sigand.Commitment[*schnorrpok.Commitment[sG, sF]](nil), a...), a[0])
+				env.Check(pfx+"/transcript with an extra commitment is rejected", noPanicErr(func() error { return and.Verify(ax, extraA, e, z) }) != nil, "accepted k+1 commitments")
+				env.Check(pfx+"/transcript with an extra commitment and response is rejected", noPanicErr(func() error { return and.Verify(ax, extraA, e, extraZ) }) != nil, "accepted k+1 commitments and responses")
+				if k >= 2 {
+					env.Check(pfx+"/transcript with a missing commitment is rejected", noPanicErr(func() error { return and.Verify(ax, a[:k-1], e, z) }) != nil, "accepted k-1 commitments")
+				}
+				env.Reach(pfx + "/shape-done")
+			}
+		}
+	}
+}
+
+// c08OrHetero: binary (cartesian) OR of two DIFFERENT protocols (batch Schnorr with k=2 and plain
+// Schnorr: different challenge lengths, in both orders) with the witness on branch b only.
+func c08OrHetero(env *SymEnv, batchFirst bool, b int) {
+	env.AssumeDrawsNonZero()
+	group := env.R.Group()
+	g := group.Generator()
+	sp, err := schnorrpok.NewProtocol[sG, sF](g, env.Reader("prover-s"))
+	bp, err2 := batch_schnorr.NewProtocol(2, group, env.Reader("prover-b"))
+	if !env.Check("C08.orhetero/protocols-ok", err == nil && err2 == nil, fmt.Sprint(err, err2)) {
+		return
+	}
+	w, w1, w2 := env.Scalar("w"), env.Scalar("w1"), env.Scalar("w2")
+	X, X1, X2 := env.Point("X"), env.Point("X1"), env.Point("X2")
+	// branch with the witness has the true statement, the other branch an unrelated statement
+	batchHas := (batchFirst && b == 0) || (!batchFirst && b == 1)
+	var sX *schnorrpok.Statement[sG, sF]
+	var bX *batch_schnorr.Statement[sG, sF]
+	if batchHas {
+		bX = batch_schnorr.NewStatement[sG, sF](g, g.ScalarOp(w1), g.ScalarOp(w2))
+		sX = schnorrpok.NewStatement[sG, sF](X)
+		env.Assume(symalg.Not(env.EqG(X, g.ScalarOp(w))))
+	} else {
+		sX = schnorrpok.NewStatement[sG, sF](g.ScalarOp(w))
+		bX = batch_schnorr.NewStatement[sG, sF](g, X1, X2)
+		env.Assume(symalg.Not(symalg.And(env.EqG(X1, g.ScalarOp(w1)), env.EqG(X2, g.ScalarOp(w2)))))
+	}
+	sW, bW := schnorrpok.NewWitness(w), batch_schnorr.NewWitness(w1, w2)
+	pfx := fmt.Sprintf("C08.sigor-cartesian[batchFirst=%v,b=%d]", batchFirst, b)
+	run := func(commit func() (any, any, error), respond func(a, st any, e sigma.ChallengeBytes) (any, error), verify func(a any, e sigma.ChallengeBytes, z any) error, simulate func(e sigma.ChallengeBytes) (any, any, error), clen int) {
+		env.Check(pfx+"/challenge length is the longer of the two", clen == max(sp.GetChallengeBytesLength(), bp.GetChallengeBytesLength()), fmt.Sprint(clen))
+		for i := range c08Challenges {
+			e := fitChal(chal(i), clen)
+			a, st, err := commit()
+			if !env.Check(pfx+"/commit-ok", err == nil, fmt.Sprint(err)) {
+				return
+			}
+			z, err := respond(a, st, e)
+			if !env.Check(pfx+"/prover with a valid witness on one branch produces a response", err == nil, fmt.Sprint(err)) {
+				return
+			}
+			env.Check(pfx+"/OR proof with exactly one witness verifies (every path)", verify(a, e, z) == nil, fmt.Sprintf("challenge %x rejected", e))
+			as, zs, err := simulate(e)
+			if env.Check(pfx+"/simulator-ok", err == nil, fmt.Sprint(err)) {
+				env.Check(pfx+"/simulated OR transcript verifies", verify(as, e, zs) == nil, "simulated transcript rejected")
+			}
+		}
+		env.Reach(pfx + "/or-done")
+	}
+	if batchFirst {
+		or, err := sigor.CartesianCompose(bp, sp, env.Reader("or"))
+		if !env.Check(pfx+"/compose-ok", err == nil, fmt.Sprint(err)) {
+			return
+		}
+		x, _ := sigor.CartesianComposeStatements(bX, sX)
+		wt, _ := sigor.CartesianComposeWitnesses(bW, sW)
+		type A = *sigor.CommitmentCartesian[*batch_schnorr.Commitment[sG, sF], *schnorrpok.Commitment[sG, sF]]
+		type Z = *sigor.ResponseCartesian[*batch_schnorr.Response[sF], *schnorrpok.Response[sF]]
+		type S = *sigor.StateCartesian[*batch_schnorr.State[sF], *schnorrpok.State[sF], *batch_schnorr.Response[sF], *schnorrpok.Response[sF]]
+		run(func() (any, any, error) { return or.ComputeProverCommitment(x, wt) },
+			func(a, st any, e sigma.ChallengeBytes) (any, error) {
+				return or.ComputeProverResponse(x, wt, a.(A), st.(S), e)
+			},
+			func(a any, e sigma.ChallengeBytes, z any) error { return or.Verify(x, a.(A), e, z.(Z)) },
+			func(e sigma.ChallengeBytes) (any, any, error) { return or.RunSimulator(x, e) }, or.GetChallengeBytesLength())
+	} else {
+		or, err := sigor.CartesianCompose(sp, bp, env.Reader("or"))
+		if !env.Check(pfx+"/compose-ok", err == nil, fmt.Sprint(err)) {
+			return
+		}
+		x, _ := sigor.CartesianComposeStatements(sX, bX)
+		wt, _ := sigor.CartesianComposeWitnesses(sW, bW)
+		type A = *sigor.CommitmentCartesian[*schnorrpok.Commitment[sG, sF], *batch_schnorr.Commitment[sG, sF]]
+		type Z = *sigor.ResponseCartesian[*schnorrpok.Response[sF], *batch_schnorr.Response[sF]]
+		type S = *sigor.StateCartesian[*schnorrpok.State[sF], *batch_schnorr.State[sF], *schnorrpok.Response[sF], *batch_schnorr.Response[sF]]
+		run(func() (any, any, error) { return or.ComputeProverCommitment(x, wt) },
+			func(a, st any, e sigma.ChallengeBytes) (any, error) {
+				return or.ComputeProverResponse(x, wt, a.(A), st.(S), e)
+			},
+			func(a any, e sigma.ChallengeBytes, z any) error { return or.Verify(x, a.(A), e, z.(Z)) },
+			func(e sigma.ChallengeBytes) (any, any, error) { return or.RunSimulator(x, e) }, or.GetChallengeBytesLength())
+	}
 }
 
 // c08Or: OR composition of n Schnorr statements; the prover knows the witness of branch b only.
@@ -357,6 +460,20 @@ func C08Cases(tier string, seed int64) []Case {
 		for b := 0; b < n; b++ {
 			nn, bb := n, b
 			cases = append(cases, mk(fmt.Sprintf("C08/or/n=%d/b=%d", n, b), map[string]any{"protocol": "sigor(schnorr)", "branches": n, "witness for branch": b}, func(e *SymEnv) { c08Or(e, nn, bb) }, fmt.Sprintf("C08.sigor[n=%d,b=%d]/or-done", n, b)))
+		}
+	}
+	for _, bf := range []bool{true, false} {
+		for b := 0; b < 2; b++ {
+			f, bb := bf, b
+			cases = append(cases, mk(fmt.Sprintf("C08/or-cartesian/batchFirst=%v/b=%d", bf, b), map[string]any{"protocol": "sigor.CartesianCompose(batch_schnorr[k=2], schnorr) — different challenge lengths", "batch first": bf, "witness for branch": b},
+				func(e *SymEnv) { c08OrHetero(e, f, bb) }, fmt.Sprintf("C08.sigor-cartesian[batchFirst=%v,b=%d]/or-done", bf, b)))
+		}
+	}
+	for _, bf := range []bool{true, false} {
+		for b := 0; b < 2; b++ {
+			f, bb := bf, b
+			cases = append(cases, mk(fmt.Sprintf("C08/or-cartesian/batchFirst=%v/b=%d", bf, b), map[string]any{"protocol": "sigor.CartesianCompose(batch_schnorr[k=2], schnorr) — different challenge lengths", "batch first": bf, "witness for branch": b},
+				func(e *SymEnv) { c08OrHetero(e, f, bb) }, fmt.Sprintf("C08.sigor-cartesian[batchFirst=%v,b=%d]/or-done", bf, b)))
 		}
 	}
 	return cases
